@@ -31,7 +31,13 @@ def chunks(seq, n):
 
 
 def wlcfg(rng, mv=None):
-    return {"max_volume": mv or rng.choice(["950", "200", "1000", "12.5"]), "max_int": False, "auto_split": True, "diti_mode": rng.random() < 0.25}
+    wl = {"max_volume": mv or rng.choice(["950", "200", "1000", "12.5"]), "max_int": False, "auto_split": True, "diti_mode": rng.random() < 0.25}
+    r = rng.random()
+    if r < 0.2 and "/" not in wl["max_volume"]:
+        wl["max_np"] = rng.choice(["float32", "float64", "0d"])
+    elif r < 0.3:
+        wl["diti_repr"] = rng.choice(["int", "npbool"])
+    return wl
 
 
 class ParamsSuite(ProgBaseSuite):
@@ -125,6 +131,10 @@ class ParamsSuite(ProgBaseSuite):
                   "dst_label": rng.choice(["P", "MTP 1"]), "dst_start": ds, "dst_end": de, "volume": v, "exclude": ex if rng.random() < 0.9 else None,
                   "multi_disp": rng.choice([1, 2, 6, 12, 100]), "diti_reuse": rng.choice([1, 3]), "liquid_class": rng.choice(LIQS),
                   "direction": rng.choice(["left_to_right", "right_to_left"])}
+            if op["exclude"] and rng.random() < 0.4:
+                op["exclude_type"] = rng.choice(["tuple", "set", "iter", "gen"])
+                if op["exclude_type"] == "set":
+                    op["exclude"] = list(dict.fromkeys(op["exclude"]))  # a set holds each well once: that is the argument
             ops.append(op)
         # ---- multi-line comments with the separator in a later line (nothing may be appended before the refusal)
         for first in ("step one", "a", "µL"):
@@ -246,10 +256,15 @@ class EvoCmdSuite(ProgBaseSuite):
                     wa = {"shape": "list", "v": wells}
                     if nw == 1 and rng.random() < 0.4:
                         wa = {"shape": "scalar", "v": wells[0]}
+                    elif nw in (2, 4, 6, 8) and rng.random() < 0.12:
+                        # the wells of the column as a 2-D array (read column-major, like every well argument)
+                        wa = {"shape": "2d", "v": [[wells[c * 2 + r_] for c in range(nw // 2)] for r_ in range(2)]}
+                    elif nw in (3, 6) and rng.random() < 0.08:
+                        wa = {"shape": "2d", "v": [[wells[c * 3 + r_] for c in range(nw // 3)] for r_ in range(3)]}
                     op = {"op": "evo_asp" if asp else "evo_disp", "lw": k, "wells": wa,
                           "grid": rng.choice([1, 67, 0, 68, {"notint": "float:3.0"}]) if rng.random() < 0.1 else rng.randint(1, 67),
                           "site": rng.choice([1, 128, 0, 129, {"notint": "none"}]) if rng.random() < 0.1 else rng.randint(1, 128),
-                          "tips": te, "volume": vol, "lc": rng.choice(["Water", "Water_DispZmax", "", "a;b", {"notstr": "none"}]) if rng.random() < 0.2 else "Water free dispense",
+                          "tips": te, "volume": vol, "lc": rng.choice(["Water", "Water_DispZmax", "", "a;b", {"notstr": "none"}, "Water free dispense 0123456789 ABCDEF", "L" * 32, "L" * 33, "Ethanol 70% (v/v) µ-dispense"]) if rng.random() < 0.25 else "Water free dispense",
                           "arm": rng.choice([0, 0, 0, 1, 1, 0, 1, 0, 0, 1, 0, 0, 2, -1]), "label": rng.choice(proggen.LABELS[:10])}
                     if not asp:
                         op["comps"] = proggen.gen_comps(rng, nw)
